@@ -1,6 +1,7 @@
 package main
 
 import (
+	"os/exec"
 	"encoding/json"
 	"flag"
 	"fmt"
@@ -378,6 +379,10 @@ func cmdCheck(args []string) int {
 		}
 		fmt.Printf("VIOLATION property=%s replay=%s obligation=%s status=%s%s\n", *prop, path, o.Name, st, tail)
 	}
+	// bounded stand-ins registered for this property (never counted as proved; a failing one is a violation with an
+	// executable replay: the stand-in itself)
+	boundedReports, boundedFailed := runBounded(*prop)
+	violations += boundedFailed
 	for i, o := range obls {
 		if i%maxInt(1, len(obls)/5) == 0 && len(samples) < 6 {
 			samples = append(samples, map[string]interface{}{"obligation": o.Name, "kind": o.Kind, "clause": o.Text, "at": o.Pos, "smt_bytes": len(o.Query), "status": statusOf(o)})
@@ -417,6 +422,7 @@ func cmdCheck(args []string) int {
 			"vacuity_covers": len(obls) - nonCover - countKnown(obls),
 			"unreachable_sites": unreachable,
 			"timeout_s":   timeout,
+			"bounded_stand_ins": boundedReports,
 		},
 		"assumptions": assumptions,
 		"wall_s":      time.Since(start).Seconds(),
@@ -460,4 +466,57 @@ func init() {
 	if os.Getenv("GOVC_DUMP_SLICE") != "" {
 		dumpSliceDir = os.Getenv("GOVC_DUMP_SLICE")
 	}
+}
+
+// runBounded runs the bounded stand-ins listed in /verif/bounded/index.json for the property: in-package tests injected
+// with -overlay into the real package of /repo's working tree. They check a TRUSTED contract on the real function for a
+// stated, finite set of inputs.
+func runBounded(prop string) ([]map[string]interface{}, int) {
+	raw, err := os.ReadFile(filepath.Join(verifDir, "bounded", "index.json"))
+	if err != nil {
+		return nil, 0
+	}
+	var items []struct {
+		Property, Name, File, Dest, Pkg, Run, Bound string
+		StandsInFor                               string `json:"stands_in_for"`
+	}
+	if err := json.Unmarshal(raw, &items); err != nil {
+		fmt.Println("UNDECIDED: bounded/index.json:", err)
+		return nil, 0
+	}
+	var out []map[string]interface{}
+	failed := 0
+	for _, it := range items {
+		if it.Property != prop {
+			continue
+		}
+		start := time.Now()
+		dir, _ := os.MkdirTemp("", "govc-bounded-")
+		ov := map[string]map[string]string{"Replace": {filepath.Join(repoDir, it.Dest): filepath.Join(verifDir, "bounded", it.File)}}
+		ovData, _ := json.Marshal(ov)
+		ovPath := filepath.Join(dir, "ov.json")
+		os.WriteFile(ovPath, ovData, 0o644)
+		cmd := exec.Command("go", "test", "-overlay", ovPath, "-vet=off", "-count=1", "-timeout", "120s", "-run", "^"+it.Run+"$", "-v", it.Pkg)
+		cmd.Dir = repoDir
+		cmd.Env = append(os.Environ(), "GOFLAGS=-mod=mod", "GOPROXY=off", "GOSUMDB=off", "GOTOOLCHAIN=local")
+		outb, err := cmd.CombinedOutput()
+		os.RemoveAll(dir)
+		text := string(outb)
+		cases := 0
+		if k := strings.Index(text, "BOUNDED-CASES "); k >= 0 {
+			fmt.Sscanf(text[k+len("BOUNDED-CASES "):], "%d", &cases)
+		}
+		status := "passed"
+		if err != nil || !strings.Contains(text, "--- PASS: "+it.Run) {
+			status = "FAILED"
+			failed++
+			replay := filepath.Join(verifDir, "replays", prop, "bounded_"+it.Run+".txt")
+			os.MkdirAll(filepath.Dir(replay), 0o755)
+			os.WriteFile(replay, []byte("bounded stand-in "+it.Name+" failed on the real code.\nre-run: cd /repo && go test -overlay <Replace "+it.Dest+" by "+filepath.Join(verifDir, "bounded", it.File)+"> -vet=off -run "+it.Run+" "+it.Pkg+"\n\n"+text), 0o644)
+			fmt.Printf("VIOLATION property=%s replay=%s obligation=bounded:%s status=failed-on-real-code\n", prop, filepath.Join(verifDir, "bounded", it.File), it.Run)
+		}
+		out = append(out, map[string]interface{}{"name": it.Name, "label": "BOUNDED (not a proof)", "bound": it.Bound, "stands_in_for": it.StandsInFor,
+			"status": status, "cases_run": cases, "secs": time.Since(start).Seconds(), "harness": filepath.Join("bounded", it.File)})
+	}
+	return out, failed
 }
